@@ -543,6 +543,7 @@ static ares_status_t read_answers(ares_conn_t *conn, const ares_timeval_t *now)
   ares_status_t   status;
   ares_channel_t *channel = conn->server->channel;
   ares_array_t   *requeue = NULL;
+  ares_socket_t   fd      = conn->fd;
 
   /* Process all queued answers */
   while (1) {
@@ -580,6 +581,14 @@ static ares_status_t read_answers(ares_conn_t *conn, const ares_timeval_t *now)
 
     /* We finished reading this answer; process it */
     status = process_answer(channel, data, data_len, conn, now, &requeue);
+
+    /* process_answer() runs user callbacks, which may start new queries.  If
+     * sending one of those on this very connection fails, the connection is
+     * closed and freed underneath us, so it must not be touched again. */
+    if (ares_conn_from_fd(channel, fd) != conn) {
+      goto cleanup;
+    }
+
     if (status != ARES_SUCCESS) {
       handle_conn_error(conn, ARES_TRUE, status);
       goto cleanup;
